@@ -45,12 +45,11 @@ def cCow (v : CVer) (key : Name) : CVer × Nat :=
   match pget v.nodes key with
   | some i =>
     if key ∈ v.changed then (v, i)
-    else
-      let (h, j) := v.heap.alloc (v.heap.cell i)
-      ({ v with heap := h, nodes := pset v.nodes key j, changed := key :: v.changed }, j)
+    else ({ v with heap := (v.heap.alloc (v.heap.cell i)).1, nodes := pset v.nodes key v.heap.next,
+                   changed := key :: v.changed }, v.heap.next)
   | none =>
-    let (h, j) := v.heap.alloc []
-    ({ v with heap := h, nodes := pset v.nodes key j, changed := key :: v.changed }, j)
+    ({ v with heap := (v.heap.alloc []).1, nodes := pset v.nodes key v.heap.next, changed := key :: v.changed },
+     v.heap.next)
 
 /-- `put_rdataset` : `node.replace_rdataset(rdataset)` on the (possibly copied) object, in place -/
 def cPut (v : CVer) (key : Name) (r : Rdataset) : CVer :=
